@@ -416,7 +416,7 @@ def diff_tag(a, b):
             return tx + "(arity)"
         for p, q in reversed(list(zip(xo, yo))):
             stack.append((p, q))
-    return "same-up-to-numbers"
+    return "index-pattern-only"
 
 
 def hidden_diffs(a, b, out=None):
